@@ -247,6 +247,31 @@ func (r *randRun) step() {
 			r.emit("RoundPush", p, st.Cur, "", "", map[string]any{"res": res})
 			j.rep.Case(tag + "RoundPush/" + res)
 		case "diff":
+			if r.c.Bulk && r.tw == nil && r.rnd.Intn(2) == 0 {
+				// the head updaters of both sides go on working between the request rounds
+				q := st.Cur
+				res, reqs := w.roundDiffTorn(j, p, func() {
+					for _, x := range []string{p, q} {
+						for k := 0; k < 1+r.rnd.Intn(6); k++ {
+							nx := w.nodes[x]
+							if id := r.pick(r.trees); nx.hasSpace() && nx.has(id) && !nx.tomb(id) {
+								e, _ := nx.entry(id)
+								for _, c := range changeNames {
+									if !contains(w.setOf(id, e.Heads), c) {
+										w.edit(x, id, c)
+										break
+									}
+								}
+							}
+						}
+						if w.nodes[x].hasSpace() {
+							w.drainBulk(j, x)
+						}
+					}
+				})
+				j.rep.Case(fmt.Sprintf("%sRoundDiffTorn/%s/r%d", tag, res, min(reqs, 4)))
+				return
+			}
 			res, reqs := w.roundDiff(j, p)
 			r.emit("RoundDiff", p, st.Cur, "", "", map[string]any{"res": res, "reqs": reqs})
 			j.rep.Case(fmt.Sprintf("%sRoundDiff/%s/r%d", tag, res, min(reqs, 4)))
